@@ -937,6 +937,9 @@ func vSameTV(a, b *sdcpb.TypedValue) bool {
 	case *sdcpb.TypedValue_EmptyVal:
 		_, ok := b.GetValue().(*sdcpb.TypedValue_EmptyVal)
 		return ok
+	case *sdcpb.TypedValue_BoolVal:
+		y, ok := b.GetValue().(*sdcpb.TypedValue_BoolVal)
+		return ok && x.BoolVal == y.BoolVal
 	case *sdcpb.TypedValue_LeaflistVal:
 		y, ok := b.GetValue().(*sdcpb.TypedValue_LeaflistVal)
 		if !ok || len(x.LeaflistVal.GetElement()) != len(y.LeaflistVal.GetElement()) {
